@@ -786,6 +786,16 @@ impl<'a> Interp<'a> {
                     // C01 bounds the cost of the *resident* entries through their charges: an entry
                     // that is resident without being charged is outside that bound
                     let free: Vec<u64> = sk.iter().copied().filter(|k| !pk.contains(k)).collect();
+                    // ... and a charge that belongs to no resident entry while the total is above
+                    // max_cost: the excess was not added by in-place updates of resident keys
+                    let ghosts: Vec<u64> = pk.iter().copied().filter(|k| !sk.contains(k)).collect();
+                    if !ghosts.is_empty() && snap.used > snap.max_cost {
+                        self.fail(
+                            "over_budget_with_ghost_charge",
+                            P_C01,
+                            format!("{}: quiescent, charged total {} exceeds max_cost {} and keys {:?} are charged without being resident", what, snap.used, snap.max_cost, ghosts),
+                        );
+                    }
                     if !free.is_empty() {
                         self.fail(
                             "resident_uncharged",
@@ -2094,7 +2104,8 @@ impl<'a> Interp<'a> {
                 if let Err(e) = r {
                     self.fail("processor_error", &["C20"], format!("processor reported {}", e));
                 }
-                let costs = self.sut.snapshot().costs;
+                let after = self.sut.snapshot();
+                let costs = after.costs;
                 self.model_proc_insert(log, costs);
                 true
             }
